@@ -4,6 +4,7 @@ import Ecal.Lemmas.ChanLemmas
 import Ecal.Gen.C07
 import Ecal.Lemmas.LexTerminates
 import Ecal.Props.C18
+import Ecal.Lemmas.PrinterNoNil
 import Ecal.Lemmas.ParserMain
 import Ecal.Lemmas.ParserShape
 import Ecal.Lemmas.ParserShapeS
@@ -265,6 +266,29 @@ example : WellFormed (.mk "" (some ⟨26, 4, [123], false, false, 0, 1, 5⟩) 0 
       [some (.mk "statements" none 0 .none .none [] [])] []) = false ∧
     okTree (.mk "" (some ⟨26, 4, [123], false, false, 0, 1, 5⟩) 0 .none .none
       [some (.mk "statements" none 0 .none .none [] [])] []) = false := by decide
+
+/-- **printer_never_hits_nil_child.** On every tree the parser returns, the printer model's `visit`
+    (`Ecal.Print.visit` = `visitFQ quote 100000`, C08's fuel-structural port of prettyprinter.go's visit) never takes
+    its nil-child branch: the result is never `.error .nilNode`, whatever the parent argument. More generally
+    (`Ecal.Print.visit_only_panic`): for every quoting function, every fuel and every strictly well-formed tree,
+    the only error `visitFQ` can return is `PErr.panic`. This does NOT say that printing succeeds: the `panic`
+    outcome (missing template for a name/arity, a node without token where the printer reads one, the slice in
+    post-processing, fuel below the depth of the tree) is not excluded here (C08's domain). -/
+theorem printer_never_hits_nil_child (ts : List Tok) (t : Node) (h : parseToks ts = (some t, none))
+    (parent : Option Node) : Ecal.Print.visit (some t) parent ≠ .error .nilNode := by
+  have hw := parse_wellformed_strict ts t h
+  simp only [WellFormedRoot, Bool.and_eq_true] at hw
+  intro he
+  have := (Ecal.Print.visit_only_panic Ecal.Print.quote 100000 t parent hw.1).h _ he
+  cases this
+
+/-- non-vacuity (the hypothesis is satisfiable and the printer then indeed prints): `a` + EOF -/
+example : (parseToks [⟨7, 0, [97], true, false, 0, 1, 1⟩, ⟨1, 1, [], false, false, 0, 1, 2⟩]).1.isSome = true := by decide
+
+/-- negative witness: on a tree WITH a nil child the printer model does take that branch -/
+example : (match Ecal.Print.visit (some (.mk "statements" none 0 .none .none [none] [])) none with
+    | .error .nilNode => true | _ => false) = true := by
+  decide +kernel
 
 /-! ## The token channel: nothing of the parser is left at the return
 
